@@ -229,7 +229,16 @@ func (v *PacketDslVisitorImpl) VisitFieldDefinitionWithAttribute(ctx *gen.FieldD
 			if padChar == "'\\x00'" {
 				padChar = "'\x00'"
 			}
-			f.Attr.(*model.FixedStringFieldAttribute).Padding = &model.Padding{
+			fs, ok := f.Attr.(*model.FixedStringFieldAttribute)
+			if !ok {
+				v.BinModel.AddSyntaxError(&model.SyntaxError{
+					Line:   fieldAttr.GetStart().GetLine(),
+					Column: fieldAttr.GetStart().GetTokenSource().GetCharPositionInLine(),
+					Msg:    "Padding attribute can only be applied to a char[n] field, not to " + f.Name,
+				})
+				continue
+			}
+			fs.Padding = &model.Padding{
 				PadChar: padChar,
 				PadLeft: strings.Contains(fieldAttr.PaddingAttribute().PADDING_ATTR().GetText(), "left"),
 			}
